@@ -11,6 +11,7 @@ import argparse
 import importlib
 import json
 import os
+import re
 import sys
 import time
 import traceback
@@ -99,6 +100,11 @@ def main():
                     confirmed, extra = rp(o)
                 except Exception:
                     extra = dict(replay_error=traceback.format_exc()[-2000:])
+            if confirmed is None and re.search(r'native|exhaustive', o.backend or "", re.I) and (o.detail or "").strip():
+                # the obligation's back end already EXECUTES the real (sliced, natively compiled) code on concrete
+                # inputs: the failing input in `detail` is a failing input of the real code
+                confirmed = True
+                extra = dict(extra or {}, note="failing input reported by a back end that executes the real code natively; see verifier_output")
             if confirmed is False:
                 # the real code contradicts the verifier's counterexample: our contract/stub is wrong
                 undecided_msgs.append("replay of %s contradicts the verifier; treated as a defect of the check" % o.id)
